@@ -92,7 +92,7 @@ func (r *Reconciler) concatenateSummary(entryIndex int, entryLineIndex int, addi
 	// not be the same line as the time value.
 	lineIndexOfLastSummaryLine := entryLineIndex + countLines([]klog.Entry{r.Record.Entries()[entryIndex]}) - 1
 	if len(additionalSummary) > 0 {
-		if len(additionalSummary[0]) > 0 {
+		if len(additionalSummary[0]) > 0 && !r.hasDanglingSeparator(entryIndex, lineIndexOfLastSummaryLine) {
 			// If there is additional summary text, always prepend a space to delimit
 			// the additional summary from either the time value or from an already
 			// existing summary text.
@@ -108,6 +108,19 @@ func (r *Reconciler) concatenateSummary(entryIndex int, entryLineIndex int, addi
 		}
 		r.insert(lineIndexOfLastSummaryLine+1, subsequentSummaryLines)
 	}
+}
+
+// hasDanglingSeparator checks whether the entry has no summary text yet, but its line
+// already ends with the blank character that separates the entry value from the summary
+// (e.g. `8:00 - ? `). In that case, no further delimiter must be added, as it would
+// otherwise become part of the summary text.
+func (r *Reconciler) hasDanglingSeparator(entryIndex int, lineIndex int) bool {
+	summary := r.Record.Entries()[entryIndex].Summary()
+	if len(summary) != 1 || len(summary[0]) > 0 {
+		return false
+	}
+	text := r.lines[lineIndex].Text
+	return strings.HasSuffix(text, " ") || strings.HasSuffix(text, "\t")
 }
 
 var blankLine = insertableText{"", 0}
